@@ -211,6 +211,15 @@ impl<'a> Engine<'a> {
         if alive > want && self.h.fault_leak {
             return; // elements leaked by an injected user panic: tolerated
         }
+        if alive > want && self.cx.prop == "C10" {
+            // C10's own mechanism ("Drain::drop destroys the rest", "remaining slots are dropped by the wrapped
+            // Map's Drop"): an entry the consuming iterator / drain neither yielded nor destroyed is still around
+            // after the iterator is gone, so the container was not emptied of it
+            let (_, _, op) = ledger::ctx();
+            if matches!(op, "drain" | "into_iter" | "adaptor") {
+                self.h.viol("C10", "neither-yielded-nor-destroyed", format!("{}: {} instrumented objects outlive a consuming iterator / drain that was dropped (not forgotten) without yielding them", whr, alive - want));
+            }
+        }
         if alive != want {
             let what = if alive > want { "leak" } else { "destroyed-too-many" };
             let ids = ledger::alive_ids();
